@@ -470,6 +470,24 @@ pub fn sections() -> Vec<Box<dyn Section>> {
                 "faulty-input-rescued-by-hook",
             ],
         }),
+        Box::new(crate::engine::Enumerated {
+            name: "hook-inserts-checksum-digest-with-every-scalar".into(),
+            total: Box::new(|_| 2 * 0x110000u64),
+            make: Box::new(|_, i| {
+                let c = char::from_u32((i / 2) as u32)?;
+                if c == ',' {
+                    return None;
+                }
+                let text = if i % 2 == 0 { format!("sha1:00{c}{c}") } else { format!("md5:0a,sha1:{c}0") };
+                Some(BuildCase {
+                    program: Program { ty: "custom".into(), name: "n".into(), ops: vec![crate::buildprog::Op::Qualifier("arch".into(), "x".into())] },
+                    spec: ShapeSpec { conv_fail: None, hook: vec![crate::shape::Action::InsertChecksum("checksum".into(), text)] },
+                })
+            }),
+            oracle: o_build,
+            required: vec![],
+            complete: true,
+        }),
         Box::new(Random {
             name: "builder-programs".into(),
             quick: 100_000,
